@@ -4,10 +4,10 @@ from .common import lib_loops
 
 META = {
     "level": "other",
-    "explanation": "'Hash equals specification' is decided in layers, as far as a SAT-based checker reaches. Layer 1 (this check): method STRUCTURE against a short independent transcription of the published algorithm over the same uninterpreted primitive - traditional descrypt (key bytes << 1, 12-bit salt, 25 salted encryptions of zero, 11-character big-endian base-64) and NT (UCS-2LE expansion, MD4, lower-case hex) - for all phrases within the bound and all salts. Layer 2: the primitives, C16 (MD4/MD5 framing and padding, HMAC-SHA1 = RFC 2104) and C17 (DES = FIPS 46-3, complete). Layer 3 (compression functions, Blowfish, Salsa20/8, pwxform/smix, and the stretch-loop structure of md5crypt/sha*crypt/sunmd5/sha1crypt against their reference descriptions) is NOT reached.",
-    "functions": ["crypt_descrypt_rn", "des_gen_hash", "ascii_to_bin", "crypt_nt_rn"],
+    "explanation": "'Hash equals specification' is decided in layers, as far as a SAT-based checker reaches. Layer 1 (this check): method STRUCTURE against a short independent transcription of the published algorithm over the same uninterpreted primitive - traditional descrypt (key bytes << 1, 12-bit salt, 25 salted encryptions of zero, 11-character big-endian base-64), NT (UCS-2LE expansion, MD4, lower-case hex), md5crypt (PHK's algorithm) and sha1crypt (NetBSD's HMAC-SHA1 chain), the last two with concrete lengths per query and the stretch loop cut after the same K rounds on both sides - for all phrases within the bound and all salts. Layer 2: the primitives, C16 (MD4/MD5 framing and padding, HMAC-SHA1 = RFC 2104) and C17 (DES = FIPS 46-3, complete). Layer 3 (compression functions, Blowfish, Salsa20/8, pwxform/smix, and the stretch-loop structure of md5crypt/sha*crypt/sunmd5/sha1crypt against their reference descriptions) is NOT reached.",
+    "functions": ["crypt_descrypt_rn", "des_gen_hash", "ascii_to_bin", "crypt_nt_rn", "crypt_md5crypt_rn", "crypt_sha1crypt_rn"],
     "bounds": {"phrase": "<= 10 bytes (descrypt: crosses the 8-byte truncation), <= 6 (NT)", "salt": "all 4096 descrypt salts"},
-    "outside": ["md5crypt, sha256crypt, sha512crypt, sunmd5, sha1crypt, bigcrypt, bsdicrypt, bcrypt, yescrypt, scrypt, gost-yescrypt structure (reference transcriptions over UF digests were designed but the two-run UF queries exhaust memory for the stretching methods)", "all compression functions / block ciphers other than DES; seed C02-m2 (smix lane split) is not detected", "interoperability with other implementations beyond what the transcriptions state"],
+    "outside": ["sha256crypt, sha512crypt, sunmd5, bigcrypt, bsdicrypt, bcrypt, yescrypt, scrypt, gost-yescrypt structure (reference transcriptions over UF digests were designed but the two-run UF queries exhaust memory for the stretching methods)", "all compression functions / block ciphers other than DES; seed C02-m2 (smix lane split) is not detected", "interoperability with other implementations beyond what the transcriptions state"],
     "assumptions": ["the transcriptions in harness/ref_struct.c are the published algorithms", "uninterpreted DES core / MD4: equality must hold for every interpretation"],
     "trusted": [],
     "claim": "Bounded structural equivalence for descrypt and NT (SAT, all salts/phrases in bound) on top of the primitive-level results of C16/C17; NOT a claim that every method equals its specification.",
@@ -27,4 +27,27 @@ def queries(tier, seed, build):
               loops=[("^harness$", None, 50, False), ("^absorb$", None, 10, False), ("^emit$", None, 10, False)] + lib_loops(40), timeout=900)
     q.loops_optional = True; q.str_bound = 40
     qs.append(q)
+    # stretching methods: concrete lengths per query, stretch loop cut after K iterations in
+    # the code under test AND in the transcription (ROUNDS_CUT)
+    from .methods import BY_NAME
+    K = 2
+    grid = [(2, 5)] if tier == "quick" else [(0, 0), (2, 5), (3, 8), (17, 8), (5, 9)]
+    for pl, sl in grid:
+        m = BY_NAME["md5crypt"]
+        q = Query("c02-md5crypt-structure-p%d-s%d" % (pl, sl), "ref_struct.c", units=["util-xstrcpy.c", "util-base64.c", "crypt-md5.c"],
+                  models=["libc.c", "digest_uf.c"],
+                  defs=["R_MD5CRYPT", "M_MD5", "METHOD_FN=crypt_md5crypt_rn", "MAX_P=%d" % max(pl, 1), "FIX_PLEN=%d" % pl, "FIX_SLEN=%d" % sl, "ROUNDS_CUT=%d" % K],
+                  unwind=20, loops=[("^harness$|^to64r$", None, 95, False), ("^absorb$", None, 10, False), ("^emit$", None, 10, False),
+                                    ("crypt_md5crypt_rn", r"cnt < 1000", K, True)] + m.extra_loops + lib_loops(60), timeout=1500)
+        q.loops_optional = True; q.str_bound = 60
+        qs.append(q)
+    for pl, sl, it in ([(2, 4, "24680")] if tier == "quick" else [(0, 1, "1"), (2, 4, "24680"), (5, 8, "262144"), (70, 8, "3")]):
+        q = Query("c02-sha1crypt-structure-p%d-s%d" % (pl, sl), "ref_struct.c", units=["util-xstrcpy.c", "util-base64.c", "crypt-pbkdf1-sha1.c"],
+                  models=["libc.c", "digest_uf.c"],
+                  defs=["R_SHA1CRYPT", "M_HMAC_SHA1", "METHOD_FN=crypt_sha1crypt_rn", "MAX_P=%d" % max(pl, 1), "FIX_PLEN=%d" % pl, "FIX_SLEN=%d" % sl,
+                        'ITER_STR="%s"' % it, "ROUNDS_CUT=%d" % min(K, int(it) - 1)],
+                  unwind=20, loops=[("^harness$|^to64r$", None, 95, False), ("^absorb$", None, 10, False), ("^emit$", None, 10, False),
+                                    ("crypt_sha1crypt_rn", r"i < iterations", K, True), ("^to64$", None, 6, False)] + lib_loops(60), timeout=1500)
+        q.loops_optional = True; q.str_bound = 60
+        qs.append(q)
     return qs
